@@ -86,7 +86,7 @@ theorem mapM_nip {α β} {f : α → M β} (hf : ∀ a, NIP b (f a)) : ∀ l : L
   cases b <;> (unfold setOption; nip_go)
 
 section
-variable (rec : Rec) (env : Env) (hs : ∀ x, NIP b (rec.spans x)) (hd : ∀ x, NIP b (rec.document x))
+variable (rec : Rec) (env : Env) (hs : ∀ x, NIP b (rec.spans x)) (hd : ∀ d x, NIP b (rec.document d x))
 include hs
 
 theorem battrParse_nip (attrs : Str) : NIP b (battrParse rec env attrs) := by
@@ -227,25 +227,25 @@ theorem documentLoop_nip : ∀ fuel r w, NIP b (documentLoop rec env fuel r w) :
   | zero => intro r w; cases b <;> (unfold documentLoop; nip_go)
   | succ n ih => intro r w; cases b <;> (unfold documentLoop; nip_go)
 
-theorem documentRender_nip (fuel : Nat) (src : Str) : NIP b (documentRender rec env fuel src) := by
+theorem documentRender_nip (fuel : Nat) (src : Str) (d : Nat) : NIP b (documentRender rec env fuel src d) := by
   have h := documentLoop_nip rec env hs hd
   cases b <;> (unfold documentRender; nip_go)
 
 end
 
 /-- Tying the knot: at every fuel level nested span and document renders are non-interfering. -/
-theorem mkRec_nip (env : Env) : ∀ n b, (∀ x, NIP b ((mkRec env n).spans x)) ∧ (∀ x, NIP b ((mkRec env n).document x)) := by
+theorem mkRec_nip (env : Env) : ∀ n b, (∀ x, NIP b ((mkRec env n).spans x)) ∧ (∀ d x, NIP b ((mkRec env n).document d x)) := by
   intro n
   induction n with
-  | zero => intro b; exact ⟨fun x => NIP.raise _ _, fun x => NIP.raise _ _⟩
+  | zero => intro b; exact ⟨fun x => NIP.raise _ _, fun d x => NIP.raise _ _⟩
   | succ n ih =>
     intro b
     refine ⟨?_, ?_⟩
     · intro x
       show NIP b (spansRender (mkRec env n) env x)
       exact spansRender_nip _ env (fun b => (ih b).1) x
-    · intro x
-      show NIP b (documentRender (mkRec env n) env (n+1) x)
-      exact documentRender_nip _ env (ih b).1 (ih b).2 _ x
+    · intro d x
+      show NIP b (documentRender (mkRec env n) env (n+1) x d)
+      exact documentRender_nip _ env (ih b).1 (ih b).2 _ x d
 
 end Rimu
